@@ -150,6 +150,10 @@ def _result_of(t, st):
             if (sa, sb) == (2, 1):
                 return {"<": ">", ">": "<", "=": "="}[st]
     if t[0] == "call" and callee_name(t) == "cmp" and len(t[2]) == 2:
+        if _FACTS[0] is not None and not any(x[0] == "field" for x in walk(t[2][0])):
+            # compared through accessor methods (`self.index().cmp(&other.index())`): read the accessors
+            from ..defuse import inline_calls as _inl
+            t = (t[0], t[1], [_inl(t[2][0], _FACTS[0], 2), _inl(t[2][1], _FACTS[0], 2)], t[3], t[4])
         fa = [x[2] for x in walk(t[2][0]) if x[0] == "field"]
         fb = [x[2] for x in walk(t[2][1]) if x[0] == "field"]
         if fa == fb and fa in (["index"], ["0"]) and {_side(t[2][0]), _side(t[2][1])} == {1, 2} and _IDX[0] is not None:
